@@ -20,8 +20,18 @@ var kwIV = [8]byte{0xA6, 0xA6, 0xA6, 0xA6, 0xA6, 0xA6, 0xA6, 0xA6}
 // key wrap algorithm places on n is that n be at least two").
 const KWMinBlocks = 2
 
-// KWWrap is RFC 3394 §2.2.1 (index based): the KEK must be 16, 24 or 32 bytes.
-func KWWrap(kek, p []byte) ([]byte, error) {
+// KWWrap is RFC 3394 §2.2.1 (index based) with the default initial value: the
+// KEK must be 16, 24 or 32 bytes.
+func KWWrap(kek, p []byte) ([]byte, error) { return KWWrapIV(kek, p, kwIV) }
+
+// KWDefaultIV returns the default initial value of §2.2.3.1.
+func KWDefaultIV() [8]byte { return kwIV }
+
+// KWWrapIV wraps with an alternative initial value (§2.2.3.2). A receiver that
+// uses the default initial value must reject the result unless iv is the
+// default: the checks use it to present wrapped keys whose integrity value is
+// off by one byte.
+func KWWrapIV(kek, p []byte, iv [8]byte) ([]byte, error) {
 	c, err := aes.NewCipher(kek)
 	if err != nil {
 		return nil, err
@@ -31,7 +41,7 @@ func KWWrap(kek, p []byte) ([]byte, error) {
 	}
 	n := len(p) / 8
 	// 1) Initialize variables.
-	a := kwIV
+	a := iv
 	r := make([][8]byte, n+1) // r[1..n]
 	for i := 1; i <= n; i++ {
 		copy(r[i][:], p[(i-1)*8:])
